@@ -289,6 +289,7 @@ def parseCorePair (op res : List String) : Option (Call × Resp) :=
 /-- The engine oracle of `create` is only consulted after the modelled checks; everything else is compared
     exactly.  Returns `none` when model and observation agree, else a description. -/
 def parsePair (op res : List String) : Option Parsed :=
+  if op == ["reexec"] then some ⟨.restart, { rv := 0 }⟩ else
   match parseCorePair op res with
   | some (c, r) => some ⟨.core c, r⟩
   | none => parseOpPair op res
